@@ -215,8 +215,12 @@ def chk_triple(repo, rng, tier, tmp, want_keyspace):
         special = [['abcd'] * 5 + ['abce'] + ['hello1'] * 5, ['abcdef'] * 700 + ['xyzdef'], None, None, None, None,
                    # a small alphabet: the levels from 10 on (where strings start with an n-gram that never starts a training password,
                    # initial level 10 after smoothing) are small enough to be enumerated
-                   ['abab'] * 6 + ['abba'] * 3 + ['abcab'] * 2 + ['baab'] + ['abab1'] * 2 + ['bcb', 'b1ab']]
-        configs = [(4, 100)] * 6 + [(3, 100)] + configs[1:]
+                   ['abab'] * 6 + ['abba'] * 3 + ['abcab'] * 2 + ['baab'] + ['abab1'] * 2 + ['bcb', 'b1ab'],
+                   # one length only (length level 0), half of the list starts with the same letter (initial level 0), two transitions that cost 9
+                   # levels each: the remaining level reaches the maximum (18) inside the recursion of _rec_calc_keyspace, and every level 1..18
+                   # is small enough to be enumerated (seed C18/8: a cache key that collides only when the remaining level equals max_level)
+                   ['aaa'] * 8500 + ['bbb'] * 8500 + ['aby', 'bbx', 'bbz']]
+        configs = [(4, 100)] * 6 + [(3, 100), (2, 100)] + configs[1:]
     for ci, (ngram, asize) in enumerate(configs):
         words = [rng.choice(WORDS) for _ in range(30)] + ['abcd'] * 5 + ['abce'] + ['hello1'] * 5 + [('abcd' * 6)[:21]] * 2
         if want_keyspace and ci >= 2:
@@ -232,6 +236,8 @@ def chk_triple(repo, rng, tier, tmp, want_keyspace):
         upto = 6 if ngram >= 4 else 4
         if want_keyspace and ci == 6:
             upto = 11
+        if want_keyspace and ci == 7:
+            upto = 18
         emitted, per_level = guesser_levels(repo, base, upto)
         if want_keyspace:
             listed, probs = {}, {}
